@@ -15,6 +15,10 @@ def run(c):
     c.guard("binding_selftest_rejections", len(st0.get("rejected") or []))
     if st0.get("corruptions") and len(st0["rejected"]) != len(st0["corruptions"]):
         c.notes.append("binding selftest: corrupted traces accepted: %s" % sorted(set(st0["corruptions"]) - set(st0["rejected"])))
+    # DAGs found by TLC simulation of Election.tla: a multi-frame root causes a decision at one of its lower frames and the
+    # re-vote then decides more frames; the application seals on the second of those blocks
+    casc = lc.run_exhaustive(c, ["corpus:cascade"], "order-independence", orders=2)
+    c.guard("corpus_seals_inside_a_cascade", casc["total"].get("traced_seals_inside_a_cascade_of_a_multi_frame_root", 0))
     res = lc.run_profile(c, "c01", c.pick(8, 120), "order-independence")
     st = res["stats"]
     c.guard("blocks", st.get("blocks", 0))
